@@ -43,6 +43,10 @@ pub struct Case {
     /// iterator, instead of by plain threads: what a planner running inside a user's pool does
     #[serde(default)]
     pub via_pool: bool,
+    /// history entries only: instead of explicit rows, re-run scenario (tier, seed, shard, run)
+    /// exactly as the shard did (generation, which itself calls the sampler, then every row)
+    #[serde(default)]
+    pub regen: Option<(String, u64, usize, usize)>,
 }
 
 /// Build the constraints the way the case says. The oracle then reads the limits back from the
@@ -339,6 +343,13 @@ fn judge_vector_noidx(case: &Case, c: &Constraints, v: &[f64; 6], fails: &mut Ve
 
 pub fn replay_all(case: &Value) -> Vec<(String, String)> {
     match serde_json::from_value::<Case>(case.clone()) {
+        Ok(c) if c.regen.is_some() => {
+            let (tier_name, seed, shard, run) = c.regen.clone().unwrap();
+            let mut scratch = Tally::default();
+            let (case, _, _, _) = gen_case(seed, shard, run, &tier(&tier_name), &mut scratch);
+            let _ = judge(&case);
+            Vec::new()
+        }
         Ok(c) => judge_with(&c, true).into_iter().map(|f| (f.clause, f.detail)).collect(),
         Err(e) => vec![("harness:bad-case".into(), e.to_string())],
     }
@@ -547,7 +558,7 @@ fn gen_case(seed: u64, shard: usize, run: usize, t: &Tier, tally: &mut Tally) ->
         _ => 0,
     };
     tally.bump(&format!("constraints_built_by_{}", ["new", "from_degrees", "update_range", "edited_fields_then_update_range", "new_then_widened_tolerances", "solver_constraints_by_prev", "solver_constraints_by_constraints", "solver_constraints_weight_half"][ctor as usize]), 1);
-    let c = build(&Case { from, to, draws: vec![], tasks: 1, cfg: None, ctor, prelude: None, gen_calls: 0, via_pool: false });
+    let c = build(&Case { from, to, draws: vec![], tasks: 1, cfg: None, ctor, prelude: None, gen_calls: 0, via_pool: false, regen: None });
     let rows = adversarial_rows(&c, &mut w, t.uniform, t.grid, tally);
     let concurrent = t.concurrent_every > 0 && run % t.concurrent_every == 0;
     // history: a wider (or narrower) set with bit-identical centres sampled just before
@@ -600,9 +611,9 @@ fn gen_case(seed: u64, shard: usize, run: usize, t: &Tier, tally: &mut Tally) ->
         if via_pool {
             tally.bump("concurrent_sampler_runs_on_pool_workers", 1);
         }
-        Case { from, to, draws: rows.iter().take(24).cloned().collect(), tasks: knobs.range_usize(2, 4), cfg: Some(cfg), ctor, prelude: None, gen_calls: 0, via_pool }
+        Case { from, to, draws: rows.iter().take(24).cloned().collect(), tasks: knobs.range_usize(2, 4), cfg: Some(cfg), ctor, prelude: None, gen_calls: 0, via_pool, regen: None }
     } else {
-        Case { from, to, draws: rows, tasks: 1, cfg: None, ctor: if prelude.is_some() { 0 } else { ctor }, prelude, gen_calls: 0, via_pool: false }
+        Case { from, to, draws: rows, tasks: 1, cfg: None, ctor: if prelude.is_some() { 0 } else { ctor }, prelude, gen_calls: 0, via_pool: false, regen: None }
     };
     let mut case = case;
     case.gen_calls = CALLS.with(|n| n.get()) - calls_before;
@@ -610,10 +621,7 @@ fn gen_case(seed: u64, shard: usize, run: usize, t: &Tier, tally: &mut Tally) ->
 }
 
 pub fn case_json(tier_name: &str, seed: u64, shard: usize, run: usize) -> Option<Value> {
-    let t = tier(tier_name);
-    let mut scratch = Tally::default();
-    let (case, _, _, _) = gen_case(seed, shard, run, &t, &mut scratch);
-    Some(json!({"check": "C18", "case": case}))
+    Some(json!({"check": "C18", "case": Case { from: [0.0; 6], to: [1.0; 6], draws: vec![], tasks: 1, cfg: None, ctor: 0, prelude: None, gen_calls: 0, via_pool: false, regen: Some((tier_name.to_string(), seed, shard, run)) }}))
 }
 
 pub fn run(tier_name: &str, seed: u64) -> i32 {
